@@ -54,6 +54,42 @@ theorem no_spoof (c : Cfg) (i : InReq) (j : Inj) (hj : j ∈ c.injectors)
     rw [hc, get_assign_ne _ _ _ _ hua]
     exact no_spoof_loop _ _ j hj
 
+theorem lastFor_uniq (K : Bytes) (o : Outcome) (injs : List Inj) (hex : ∃ j ∈ injs, canonKey j.name = K)
+    (hu : ∀ j' ∈ injs, canonKey j'.name = K → j'.out = o) : lastFor K injs = some o := by
+  induction injs with
+  | nil => obtain ⟨j, hj, _⟩ := hex; cases hj
+  | cons a r ih =>
+    simp only [lastFor]
+    by_cases hr : ∃ j ∈ r, canonKey j.name = K
+    · rw [ih hr (fun j' hj' => hu j' (List.mem_cons_of_mem _ hj'))]; rfl
+    · have ha : canonKey a.name = K := by
+        obtain ⟨j, hj, hk⟩ := hex
+        rcases List.mem_cons.mp hj with h1 | h1
+        · subst h1; exact hk
+        · exact absurd ⟨j, h1, hk⟩ hr
+      have hn : lastFor K r = none := by
+        clear ih hex hu
+        induction r with
+        | nil => rfl
+        | cons b t iht =>
+          simp only [lastFor]
+          have hb : canonKey b.name ≠ K := fun hb => hr ⟨b, List.mem_cons_self, hb⟩
+          rw [iht (fun ⟨j, hj, hk⟩ => hr ⟨j, List.mem_cons_of_mem _ hj, hk⟩), if_neg hb]; rfl
+      rw [hn, if_pos ha, hu a List.mem_cons_self ha]; rfl
+
+/-- DELIVERY (the plumbing half of C01–C03): for every injector set — default or custom, in ANY order, whatever the
+other injectors return (value, empty, error) — and every inbound request, a non-empty value computed by the injector
+that owns a header name is exactly what the backend receives under that name. -/
+theorem delivered (c : Cfg) (i : InReq) (j : Inj) (hj : j ∈ c.injectors)
+    (hua : canonKey j.name ≠ strBytes "User-Agent")
+    (howns : ∀ j' ∈ c.injectors, canonKey j'.name = canonKey j.name → j'.out = j.out)
+    (v : Bytes) (hv : j.out = .value v) (hne : v.isEmpty = false) :
+    get (rewrite c i).hdr (canonKey j.name) = [v] := by
+  rw [no_spoof c i j hj hua]
+  unfold specValues
+  rw [lastFor_uniq _ j.out _ ⟨j, hj, rfl⟩ howns, hv]
+  simp [hne]
+
 /-- at most one value -/
 theorem at_most_one (c : Cfg) (i : InReq) (j : Inj) (hj : j ∈ c.injectors)
     (hua : canonKey j.name ≠ strBytes "User-Agent") : (get (rewrite c i).hdr (canonKey j.name)).length ≤ 1 := by
